@@ -52,6 +52,12 @@ def gen_plan(seed, tier):
     # termination must not stop these short runs; generous limits
     plan['ops'] = [o for o in plan['ops'] if o['what'] != 'termination']
     plan['ops'].append({'op': 'set', 'what': 'termination', 'arg': {'t': 'VTR', 'kw': {'tolerance': 1e-300, 'target': -1e300}}})
+    # limits given before the run (generous: they never stop these short runs), also as 'new' budgets with no number -- mystic keeps a
+    # placeholder for those until the next Terminated(), and a restart file written in between carries the placeholder
+    r0 = sub_rng(seed, 'plan.c06.limits')
+    if r0.random() < 0.3:
+        plan['ops'].insert(r0.randint(1, len(plan['ops'])), {'op': 'set', 'what': 'limits',
+                           'arg': [r0.choice([None, None, 500]), r0.choice([None, None, 100000]), r0.random() < 0.6]})
     N = rng.randint(3, 8 if tier == 'quick' else 12)
     plan['N'] = N
     plan['save_every'] = rng.choice([1, 1, 2, 3])
@@ -174,6 +180,13 @@ def run_plan(plan):
 def compare(ref_snaps, k, snap, violate, path, what, **tags):
     a = strip(ref_snaps[k]); b = strip(snap)
     d = first_diff(a, b)
+    if not d:
+        # limits are resolved lazily (None / new=True placeholders become numbers at the next Terminated()): once both runs hold
+        # numbers, they are the same numbers
+        for key in ('maxiter', 'maxfun'):
+            va, vb = ref_snaps[k].get(key), snap.get(key)
+            if isinstance(va, (int, float)) and isinstance(vb, (int, float)) and not isinstance(va, bool) and va != vb:
+                d = '/%s(%r!=%r)' % (key, va, vb); break
     if d:
         field = d.split('/')[1].split('[')[0].split('(')[0].split('#')[0] if '/' in d else d
         violate('restore_diverged@%s' % field, '%s: path=%s restored vs uninterrupted run differ at step %d: %s'
